@@ -47,6 +47,12 @@ const (
 	slack      = 3 * time.Second  // scheduling slack on top of the effective deadline
 	grace      = 6 * time.Second  // goroutines / iterators must be gone this long after the batch
 	noDeadline = 20 * time.Second // bound of calls made without a short deadline (small data only)
+	// truthWatchdog: a Check on a SMALL scenario (milliseconds of work) that has not returned after
+	// this long is a hang, not load; the first hang ends the no-deadline checks of the whole run.
+	truthWatchdog = 8 * time.Second
+	// hangMargin: a call that has not returned at effective deadline + slack + hangMargin is
+	// abandoned (recorded with that elapsed time: a deadline overrun) and the run is cut short.
+	hangMargin = 2 * time.Second
 )
 
 var apiNames = []string{"check", "batchcheck", "listobjects", "streamedlistobjects", "listusers", "expand"}
@@ -137,6 +143,7 @@ type obs struct {
 	class     string
 	n         int
 	items     [4]int // batch check items: ok, deadline, cancelled, other error
+	hung      bool   // abandoned by the watchdog: the call never returned
 }
 
 type runner struct {
@@ -230,12 +237,45 @@ func (x *runner) exec(c call) obs {
 		cancels = append(cancels, cf)
 		eff = noDeadline.Microseconds()
 	}
+	start := time.Now()
+	done := make(chan callRes, 1)
+	go x.invoke(ctx, c, done)
+	wd := time.NewTimer(time.Duration(eff)*time.Microsecond + slack + hangMargin)
+	var res callRes
+	hung := false
+	select {
+	case res = <-done:
+	case <-wd.C:
+		hung = true
+	}
+	wd.Stop()
+	el := time.Since(start)
+	if timer != nil {
+		timer.Stop()
+	}
+	for _, cf := range cancels {
+		cf()
+	}
+	if hung {
+		return obs{api: c.api, effUs: eff, elapsedUs: el.Microseconds(), class: "hung", hung: true}
+	}
+	return obs{api: c.api, effUs: eff, elapsedUs: el.Microseconds(), class: classOf(res.err), n: res.n, items: res.items}
+}
+
+type callRes struct {
+	err   error
+	n     int
+	items [4]int
+}
+
+// invoke performs the API call; it runs in its own goroutine so that a call that never returns
+// can be abandoned by exec.
+func (x *runner) invoke(ctx context.Context, c call, done chan<- callRes) {
 	store, model := x.env.StoreID, x.env.Model.GetId()
 	reqCtx := scen.Struct(x.env.S.ReqCtx)
 	var err error
 	n := 0
 	var items [4]int
-	start := time.Now()
 	switch c.api {
 	case apiCheck:
 		var resp *openfgav1.CheckResponse
@@ -297,14 +337,7 @@ func (x *runner) exec(c call) obs {
 			n = 1
 		}
 	}
-	el := time.Since(start)
-	if timer != nil {
-		timer.Stop()
-	}
-	for _, cf := range cancels {
-		cf()
-	}
-	return obs{api: c.api, effUs: eff, elapsedUs: el.Microseconds(), class: classOf(err), n: n, items: items}
+	done <- callRes{err: err, n: n, items: items}
 }
 
 // relsOf returns the relations defined on the type of an object (or type name).
@@ -536,6 +569,9 @@ func (x *runner) truth(ctx context.Context, in *scen.Intern) (rec.V, rec.V, rec.
 	defer closer()
 	var svs []rec.V
 	for _, sub := range x.sh.Users {
+		if truthHung {
+			break
+		}
 		var pxs []rec.V
 		for _, p := range x.env.PathX(sub) {
 			pxs = append(pxs, rec.L(rec.I(in.T(p[0])), rec.I(in.R(p[1]))))
@@ -544,7 +580,17 @@ func (x *runner) truth(ctx context.Context, in *scen.Intern) (rec.V, rec.V, rec.
 		for _, o := range x.sh.Targets {
 			ot, _ := scen.SplitObj(o)
 			for _, rel := range x.relsOf(ot) {
-				out, _ := x.env.Check(ctx, resolver, o, rel, sub, nil)
+				if truthHung {
+					break
+				}
+				wctx, wcancel := context.WithTimeout(ctx, truthWatchdog)
+				out, _ := x.env.Check(wctx, resolver, o, rel, sub, nil)
+				wcancel()
+				if out == scen.OutTimeout {
+					// the first hang ends the no-deadline checks of this scenario and of the run
+					truthHung = true
+					x.w.Stat("truth_hang", 1)
+				}
 				x.w.Stat("truth_requests", 1)
 				x.w.Stat("truth_"+[]string{"allowed", "denied", "denied_cycle", "err_cond", "err_depth", "err_other", "timeout", "invalid"}[out], 1)
 				a, b := in.Obj(o)
@@ -622,7 +668,10 @@ func runScenario(w *rec.Writer, seed uint64, tier string) {
 	// ---- model side (small scenarios): outcome of the real Check without deadlines
 	model, conds, tuples, atoms, subjects := rec.L(), rec.L(), rec.L(), rec.L(), rec.L()
 	withModel := 0
-	if sh.Small {
+	if sh.Small && truthHung {
+		w.Stat("truth_skipped_after_hang", 1)
+	}
+	if sh.Small && !truthHung {
 		in := scen.NewIntern()
 		model, conds, tuples, atoms, subjects = x.truth(ctx, in)
 		withModel = 1
@@ -689,6 +738,10 @@ func runScenario(w *rec.Writer, seed uint64, tier string) {
 		}
 		wg.Wait()
 		for i, o := range out {
+			if o.hung {
+				abortRun = true
+				w.Stat("calls_never_returned", 1)
+			}
 			calls = append(calls, rec.L(rec.I(o.api), rec.I64(o.effUs), rec.I64(o.elapsedUs)))
 			if os.Getenv("C20_DEBUG") == "2" {
 				fmt.Fprintf(os.Stderr, "%s %-20s %-10s el=%7d eff=%7d n=%d items=%v %s#%s@%s t=%s\n", kind, apiNames[o.api], o.class, o.elapsedUs, o.effUs, o.n, o.items, cs[i].obj, cs[i].rel, cs[i].user, cs[i].typ)
@@ -723,7 +776,11 @@ func runScenario(w *rec.Writer, seed uint64, tier string) {
 				statMax(w, "max_overrun_us", int(over))
 			}
 		}
-		// census after the batch
+		// census after the batch (after a hang the verdict is already a violation: short grace)
+		grace := grace
+		if abortRun {
+			grace = time.Second
+		}
 		statMax(w, "max_goroutines_during_run", len(snapshot()))
 		if l := waitGoroutines(g1, allowRequestScope, grace); len(l) > 0 {
 			leakedN += len(l)
@@ -741,10 +798,25 @@ func runScenario(w *rec.Writer, seed uint64, tier string) {
 			ds.live = map[int64]*[10]uintptr{}
 			ds.mu.Unlock()
 		}
+		if abortRun {
+			break
+		}
 	}
 	// ---- close the server: everything it started must be gone
-	x.srv.Close()
-	if l := waitGoroutines(g0, allowRequestScope, grace); len(l) > 0 {
+	closed := make(chan struct{})
+	go x.closeServer(closed)
+	select {
+	case <-closed:
+	case <-time.After(10 * time.Second):
+		w.Stat("server_close_hung", 1)
+		leakedN++
+		leakedDesc = append(leakedDesc, "Server.Close did not return within 10 s")
+	}
+	finalGrace := grace
+	if abortRun {
+		finalGrace = time.Second
+	}
+	if l := waitGoroutines(g0, allowRequestScope, finalGrace); len(l) > 0 {
 		leakedN += len(l)
 		leakedDesc = append(leakedDesc, "after Server.Close: "+describe(l, 4))
 	}
@@ -756,7 +828,12 @@ func runScenario(w *rec.Writer, seed uint64, tier string) {
 	desc.Leaked, desc.IterSites, desc.Overruns = leakedDesc, iterSites, overruns
 	sort.Strings(desc.IterSites)
 	w.Case(desc, rec.I(1), rec.I(withModel), model, conds, tuples, atoms, rec.I(cfg.Depth), subjects,
-		rec.L(calls...), rec.I64(slack.Microseconds()), rec.I(leakedN), rec.I64(ds.opens.Load()), rec.I64(ds.stops.Load()), rec.I(iterLive))
+		rec.L(calls...), rec.I64(slack.Microseconds()), rec.I(leakedN), rec.I64(ds.opens.Load()), rec.I64(ds.stops.Load()), rec.I(iterLive), rec.I64(truthWatchdog.Microseconds()))
+}
+
+func (x *runner) closeServer(done chan struct{}) {
+	x.srv.Close()
+	close(done)
 }
 
 func (x *runner) goExec(c call, out *obs, wg *sync.WaitGroup, sem chan struct{}) {
@@ -766,6 +843,9 @@ func (x *runner) goExec(c call, out *obs, wg *sync.WaitGroup, sem chan struct{})
 }
 
 var maxes = map[string]int{}
+
+// truthHung: a no-deadline Check hit the watchdog; abortRun: a deadline call never returned.
+var truthHung, abortRun bool
 
 // statMax keeps a running maximum in a !STAT counter.
 func statMax(w *rec.Writer, key string, v int) {
@@ -812,6 +892,11 @@ func main() {
 	}
 	r := rec.NewRand(o.Seed)
 	for i := 0; i < o.N; i++ {
+		if abortRun {
+			// a call never returned: the violation is recorded; do not pile more work on a stuck server
+			w.Stat("scenarios_skipped_after_hang", o.N-i)
+			break
+		}
 		runScenario(w, r.Uint64(), o.Tier)
 	}
 }
